@@ -979,6 +979,8 @@ class TorConfig:
             real_name = self._find_real_name(key)
             if not isinstance(value, list) and real_name in self.parsers:
                 value = self.parsers[real_name].parse(value)
+                if real_name in self.list_parsers and not isinstance(value, list):
+                    value = [value]
                 if isinstance(value, list):
                     value = _ListWrapper(
                         value, functools.partial(self.mark_unsaved, real_name))
